@@ -205,7 +205,7 @@ fn main() {
     let u_wide = universe(&["0", "9", "10", "4294967296", "9999999999999999999", "18446744073709551615"], &["9", "10", "18446744073709551615", "a", "-", "1000000000000000000", "9000000000000000000", "10000000000000000000", "9999999999999999999"], if quick { 1 } else { 2 }, &[""]);
     let s_wide = check_pairs(&ctx, &u_wide);
     // hyphenated identifiers: one alphanumeric identifier each in SemVer 2.0.0, never a separator
-    let u_hyph = universe(&["0", "1"], &["rc", "rc-2", "rc-10", "2", "10", "1-0", "-", "rc-", "-1", "a-b", "0-0"], 2, &[""]);
+    let u_hyph = universe(&["0", "1"], &["rc", "rc-2", "rc-10", "2", "10", "1-0", "-", "rc-", "-1", "a-b", "0-0", "01a", "00x", "007f3a2", "00-1", "0a"], 2, &[""]);
     let s_hyph = check_pairs(&ctx, &u_hyph);
 
     // sub-universes for triples and max-tag: a strided selection of u_build (keeps build variants and equal-precedence members)
